@@ -35,18 +35,18 @@ def must_see(tier):
 
 def plan(tier, seed):
     specs = []
-    nh = 36 if tier == 'quick' else 240
+    nh = 36 if tier == 'quick' else 1200
     for fam in families.FAMILY_NAMES:
         for impl in ('c', 'py'):
             specs.append(dict(label='%s-%s' % (fam, impl), family=fam,
                               impl=impl, histories=nh, seed=seed, tier=tier,
                               variant='mon', timeout=900 if tier == 'quick'
-                              else 3000))
+                              else 7200))
     if tier == 'thorough':
         for fam in families.FAMILY_NAMES:
             specs.append(dict(label='%s-c-asan' % fam, family=fam, impl='c',
-                              histories=40, seed=seed + 1000, tier=tier,
-                              variant='asan', timeout=3000))
+                              histories=150, seed=seed + 1000, tier=tier,
+                              variant='asan', timeout=7200))
     return specs
 
 
